@@ -41,7 +41,9 @@ def main():
 
     holder = FileLock(path)           # object 1 holds the lock throughout
     assert holder.acquire() is True
-    assert fds_on(path) == [holder._lock_file_fd]
+    if len(fds_on(path)) != 1:
+        print('scenario did not run as intended (holder descriptors: %r)' % fds_on(path))
+        return 2
 
     waiter = FileLock(path)           # object 2: its blocking acquire fails
     main_ident = threading.main_thread().ident
@@ -72,16 +74,10 @@ def main():
         return 2
 
     # The attempt failed: the waiter must be exactly as before.
-    thread_lock_free = waiter._thread_lock.acquire(False)
-    if thread_lock_free:
-        waiter._thread_lock.release()
     leaked = len(fds_on(path)) - baseline
 
     print('waiter.is_locked           =', waiter.is_locked)
-    print('waiter internal lock free  =', thread_lock_free)
-    print('waiter._lock_counter       =', waiter._lock_counter)
-    print('descriptors on lock file   =', fds_on(path),
-          '(holder owns only %d)' % holder._lock_file_fd)
+    print('descriptors on lock file   =', fds_on(path), '(the holder owns one)')
 
     holder.release()
 
